@@ -1140,6 +1140,11 @@ def rule_R5_labelled_for(text, log):
 
 # R6: redirects of std / foreign calls Verus has no spec for to same-named
 # prelude functions (whose trusted contract is the std documentation).
+def vx_strref(recv):
+    """a field path names the string itself, a plain local (a `ref` binding) is already a reference"""
+    return '&' + recv if '.' in recv else recv
+
+
 R6_TABLE = [
     # `Some(&Enum::Unit)` pattern on an Option<&Enum>: match ergonomics make `Some(Enum::Unit)` the same pattern
     (r'\bSome\(&([A-Z]\w*(?:::[A-Z]\w*)+)\)(?=\s*(?:\||=>))', r'Some(\1)'),
@@ -1155,9 +1160,9 @@ R6_TABLE = [
     (r'\|\(\)\|', '|_vx_u: ()|'),
     (r"(?<![\w.])(\w+)\.contains\(\['\+', '#'\]\)", r'vx_bstr_has_wild(\1)'),
     # str::contains with a pattern of printable ASCII: two-character array, one character, string literal (std documentation)
-    (r"(?<![\w.])(\w+)\.contains\(\['([ -&(-\[\]-~])', '([ -&(-\[\]-~])'\]\)", lambda m: 'vx_bstr_has_any2(%s, 0x%02Xu8, 0x%02Xu8)' % (m.group(1), ord(m.group(2)), ord(m.group(3)))),
-    (r"(?<![\w.])(\w+)\.contains\('([ -&(-\[\]-~])'\)", lambda m: 'vx_bstr_has_any2(%s, 0x%02Xu8, 0x%02Xu8)' % (m.group(1), ord(m.group(2)), ord(m.group(2)))),
-    (r'(?<![\w.])(\w+)\.contains\("([ !#-\[\]-~]{1,4})"\)', lambda m: 'vx_bstr_has_sub%d(%s, %s)' % (len(m.group(2)), m.group(1), ', '.join('0x%02Xu8' % ord(c) for c in m.group(2)))),
+    (r"(?<![\w.])((?:\w+\.)*\w+)\.contains\(\['([ -&(-\[\]-~])', '([ -&(-\[\]-~])'\]\)", lambda m: 'vx_bstr_has_any2(%s, 0x%02Xu8, 0x%02Xu8)' % (vx_strref(m.group(1)), ord(m.group(2)), ord(m.group(3)))),
+    (r"(?<![\w.])((?:\w+\.)*\w+)\.contains\('([ -&(-\[\]-~])'\)", lambda m: 'vx_bstr_has_any2(%s, 0x%02Xu8, 0x%02Xu8)' % (vx_strref(m.group(1)), ord(m.group(2)), ord(m.group(2)))),
+    (r'(?<![\w.])((?:\w+\.)*\w+)\.contains\("([ !#-\[\]-~]{1,4})"\)', lambda m: 'vx_bstr_has_sub%d(%s, %s)' % (len(m.group(2)), vx_strref(m.group(1)), ', '.join('0x%02Xu8' % ord(c) for c in m.group(2)))),
     (r'\.(map_err|map)\(\s*([A-Z]\w*(?:::[A-Z]\w*)+)\s*\)', r'.\1(|vx_c| \2(vx_c))'),
     (r'\b([A-Za-z_][\w.]*)\s*\.map_or\(\s*([A-Za-z_][\w.]*)\s*,\s*\|val\|\s*cmp::min\(\s*\2\s*,\s*val\s*\)\s*\)', r'vx_min_opt(\2, \1)'),
     (r'([\w.]+(?:\([^()]*\))?(?:\.unwrap\(\))?)\.as_str\(\) != ([\w.]+)\.as_str\(\)', r'!vx_bstr_eq(\1.vx_b(), \2.vx_b())'),
